@@ -123,4 +123,10 @@ def posteriorResampleTrim (w : List α) (keep : List Bool) (u0 : α) : Option (L
   let kept := (w1.zip keep).filterMap fun q => if q.2 then some q.1 else none
   posteriorResample (normaliseNp kept) u0
 
+/-- how the line protocol (and `Resampler.run`) name the scheme: `self.resample == "mult"` / `== "syst"`, anything else falls
+    through both tests.  The driver decodes its `scheme=` argument with this function; `Props/C06Source.lean` proves it is the
+    dispatch read from /repo's `steps/resample.py`. -/
+def _root_.Model.Resample.Scheme.ofString (s : String) : Scheme :=
+  if s == "mult" then .mult else if s == "syst" then .syst else .other
+
 end Model.ResampleX
